@@ -59,7 +59,8 @@ def ser_content(c):
         return "D" + ser_ditems(c[1])
     if c[0] == "N":
         return "N" + ser_pieces(c[1])
-    return "S[" + ";".join("%s(%s,%s)" % (r[0], r[1], r[2]) for r in c[2]) + "]"
+    # xs:redefine is modelled as xs:include (same resolveSchemaLocation / seen-list logic in openRedefinedSchema)
+    return "S[" + ";".join("%s(%s,%s)" % ("inc" if r[0] == "red" else r[0], r[1], r[2]) for r in c[2]) + "]"
 
 
 def ser_doc(d):
@@ -130,6 +131,8 @@ def xml_content(c):
     for r in refs:
         if r[0] == "inc":
             s += ' <xs:include schemaLocation="%s"/>\n' % r[2]
+        elif r[0] == "red":
+            s += ' <xs:redefine schemaLocation="%s"/>\n' % r[2]
         else:
             s += ' <xs:import namespace="%s" schemaLocation="%s"/>\n' % (r[1], r[2])
     s += ' <xs:element name="r%d"/>\n</xs:schema>\n' % (sum(map(ord, tns)) % 97)
@@ -322,6 +325,18 @@ def scenarios1(root):
                            "body": [R("e"), R("f")]})
     out.append(s)
 
+    # 13. nested schema references of all three kinds below a top-level schema (resolver mode `top` supplies only
+    # the top-level schema: with default resolution disabled the nested targets must not be opened)
+    s = Scn(root, "s13", "top-level schema with nested xs:include / xs:import / xs:redefine in sub-directories")
+    s.add("x/" + s.n("top.xsd"), ("S", "urn:c19:t", [("inc", "", "i/" + s.n("inc.xsd")), ("imp", "urn:c19:u", "../y/" + s.n("imp.xsd")),
+                                                    ("red", "", "./r/" + s.n("red.xsd"))]))
+    s.add("x/i/" + s.n("inc.xsd"), ("S", "urn:c19:t", [("inc", "", s.n("inc2.xsd"))]))
+    s.add("x/i/" + s.n("inc2.xsd"), ("S", "urn:c19:t", []))
+    s.add("y/" + s.n("imp.xsd"), ("S", "urn:c19:u", []))
+    s.add("x/r/" + s.n("red.xsd"), ("S", "urn:c19:t", []))
+    s.setdoc("doc.xml", {"hints": [("urn:c19:t", "x/" + s.n("top.xsd"))], "body": ["T"]})
+    out.append(s)
+
     # 12. no references at all (nothing may be touched in any configuration)
     s = Scn(root, "s12", "document without external references")
     s.setdoc("doc.xml", {"doctype": {"ext": None, "int": [("G", "k", ("I", ["T"]))]}, "body": [R("k")]})
@@ -333,7 +348,7 @@ def scenarios1(root):
 
 # which entity holds the declaration / reference of each canary (None = the document entity); a.xsd is also
 # referenced from b.xsd and c.xsd (loops), which the oracle accepts as additional parents
-PARENTS = {'s01': {'main.dtd': None, 'p1.pe': 'main.dtd', 'e1.ent': 'main.dtd', 'e2.ent': 'p1.pe'}, 's02': {'p.pe': None, 'e1.ent': None, 'e3.ent': 'p.pe'}, 's03': {'u.dtd': None, 'e1.ent': 'u.dtd'}, 's04': {'h.dtd': None}, 's05': {'h.ent': None}, 's06': {'a.xsd': None, 'b.xsd': 'a.xsd', 'c.xsd': 'a.xsd', 'n.xsd': None}, 's07': {'a.xsd': None, 'n.xsd': None, 'h.xsd': 'n.xsd', 'm.dtd': None, 'e1.ent': 'm.dtd'}, 's08': {'e1.ent': None}, 's09': {'e1.ent': 'm.dtd', 'm.dtd': None}, 's10': {'m.dtd': None, 'gone.ent': 'm.dtd', 'gone.xsd': None}, 's11': {'l1.dtd': None, 'l2.pe': 'l1.dtd', 'e.ent': 'l2.pe', 'f.ent': None}, 's12': {}}
+PARENTS = {'s01': {'main.dtd': None, 'p1.pe': 'main.dtd', 'e1.ent': 'main.dtd', 'e2.ent': 'p1.pe'}, 's02': {'p.pe': None, 'e1.ent': None, 'e3.ent': 'p.pe'}, 's03': {'u.dtd': None, 'e1.ent': 'u.dtd'}, 's04': {'h.dtd': None}, 's05': {'h.ent': None}, 's06': {'a.xsd': None, 'b.xsd': 'a.xsd', 'c.xsd': 'a.xsd', 'n.xsd': None}, 's07': {'a.xsd': None, 'n.xsd': None, 'h.xsd': 'n.xsd', 'm.dtd': None, 'e1.ent': 'm.dtd'}, 's08': {'e1.ent': None}, 's09': {'e1.ent': 'm.dtd', 'm.dtd': None}, 's10': {'m.dtd': None, 'gone.ent': 'm.dtd', 'gone.xsd': None}, 's11': {'l1.dtd': None, 'l2.pe': 'l1.dtd', 'e.ent': 'l2.pe', 'f.ent': None}, 's12': {}, 's13': {'top.xsd': None, 'inc.xsd': 'top.xsd', 'imp.xsd': 'top.xsd', 'red.xsd': 'top.xsd', 'inc2.xsd': 'inc.xsd'}}
 EXTRA_PARENTS = {'s06': {'a.xsd': ['b.xsd', 'c.xsd']}}
 
 
@@ -437,7 +452,7 @@ def req(api, scn, val, ds, ls, ld, dis, su, lim, res, s):
 
 SCANNERS = ["IG", "DG", "SG", "WF"]
 VALS = ["never", "always", "auto"]
-RES = ["none", "null", "src"]
+RES = ["none", "null", "src", "top"]
 
 
 def strip_file(u):
@@ -676,6 +691,100 @@ def base_depth(base):
     return max(0, len([s for s in path.split("/")[:-1] if s]))
 
 
+def hist_cases(ctx, lds):
+    """histories on ONE parser object: (api, ops, docs) ; docs are self-contained entity-table documents whose
+    number of counted expansions (`needed`) is known by construction"""
+    rng = ctx.rng
+    pool = [s for s in lds if not s.cyc and s.dtd_side == 0 and s.needed >= 1]
+    by_need = {}
+    for s in pool:
+        by_need.setdefault(s.needed, []).append(s)
+    out = []
+
+    def add(kind, api, ops, docs):
+        out.append((kind, api, ops, docs))
+
+    def pick(n):
+        return rng.choice(by_need[n])
+
+    needs = sorted(by_need)
+    for api in ("sax", "dom", "sax1"):
+        for scn in SCANNERS:
+            for (n1, n2, n3) in ((2, 2, 1), (3, 1, 3), (1, 1, 1), (5, 4, 2), (7, 3, 5)):
+                docs = [pick(n1), pick(n2), pick(n3)]
+                lim = max(n1, n2, n3)                     # each document within the limit, prefix sums cross it
+                seq = ["P0", "P1", "P2", "P0"]
+                add("hist-sums", api, ["L%d" % lim, "M1", "S" + scn] + seq, docs)          # manager before the scanner
+                add("hist-sums", api, ["S" + scn, "L%d" % lim, "M1"] + seq, docs)          # manager after the scanner
+                add("hist-sums", api, ["M1", "S" + scn, "L%d" % lim] + seq[:2], docs)      # limit set after installing
+                # lowered between parses: over the new limit must be rejected; raised again: accepted
+                add("hist-lower", api, ["L50", "M1", "S" + scn, "P0", "L%d" % (n1 - 1), "P0", "P1", "L50", "P0"], docs)
+                add("hist-raise", api, ["S" + scn, "L%d" % (n1 - 1), "M1", "P0", "L%d" % n1, "P0", "L%d" % (n1 + n2), "P1", "P0"], docs)
+                # scanner switches in the middle of the history
+                other = "DG" if scn != "DG" else "IG"
+                add("hist-switch", api, ["L%d" % lim, "M1", "S" + scn, "P0", "P1", "S" + other, "P2", "P0", "S" + scn, "P1", "P2"], docs)
+                add("hist-switch", api, ["S" + other, "L%d" % lim, "M1", "P0", "S" + scn, "L%d" % (n2 - 1), "P1", "P2"], docs)
+                # manager removed and installed again
+                add("hist-remove", api, ["L%d" % (n1 - 1), "M1", "S" + scn, "P0", "M0", "P0", "P1", "M1", "P0", "L%d" % lim, "P0"], docs)
+    for _ in range(400 if ctx.tier == "quick" else 6000):
+        docs = [pick(rng.choice(needs)) for _ in range(rng.randrange(2, 5))]
+        ops = []
+        for _ in range(rng.randrange(4, 12)):
+            r = rng.random()
+            if r < 0.45:
+                ops.append("P%d" % rng.randrange(len(docs)))
+            elif r < 0.70:
+                ops.append("L%d" % rng.choice([0, 1, 2, 3, 4, 5, 7, 8, 15, 50]))
+            elif r < 0.85:
+                ops.append("M%d" % (1 if rng.random() < 0.8 else 0))
+            else:
+                ops.append("S" + rng.choice(SCANNERS))
+        if not ops[0].startswith("L"):
+            ops.insert(0, "L%d" % rng.choice([1, 3, 8]))
+        add("hist-seeded", rng.choice(("sax", "dom", "sax1")), ops, docs)
+    return out
+
+
+def hist_line(api, ops, docs):
+    return "hist %s %s %s" % (api, ";".join(ops), " ".join("%s %s" % (s.doc["sys"], ser_doc(s.doc)) for s in docs))
+
+
+def hist_spec_check(ops, docs, answer):
+    """the property on a history: every parse is judged against the limit in force at ITS start with a count
+    starting at zero -- evaluated from the ops alone (no model): returns [(what, detail)]"""
+    bad = []
+    if not answer.startswith("h="):
+        return [("hist", "no answer: " + answer)]
+    res = [] if answer == "h=-" else answer[2:].split(";")
+    installed, mgr, scn = False, None, "IG"
+    k = 0
+    for op in ops:
+        if op[0] == "L":
+            mgr = int(op[1:])
+        elif op[0] == "M":
+            installed = op == "M1"
+        elif op[0] == "S":
+            scn = op[1:]
+        elif op[0] == "P":
+            s = docs[int(op[1:])]
+            if k >= len(res):
+                bad.append(("hist", "parse %d has no verdict" % k))
+                break
+            fatal, starts = res[k].rsplit(":", 1)
+            lim = mgr if installed else None
+            if scn in ("IG", "DG"):
+                want = "Limit" if (lim is not None and s.needed > lim) else "none"
+                if fatal != want:
+                    bad.append(("limit-per-parse", "parse %d (%s, needs %d expansions, limit in force %s) gave %s, "
+                                "expected %s" % (k, s.tag, s.needed, lim, fatal, want)))
+                if lim is not None and int(starts) > lim:
+                    bad.append(("limit-per-parse", "parse %d delivered %s expansions with limit %d" % (k, starts, lim)))
+            elif fatal == "Limit":
+                bad.append(("limit-per-parse", "parse %d on a scanner without entity pool reported the limit" % k))
+            k += 1
+    return bad
+
+
 def limit_spec(a, s, ans, nolimit_ans):
     """Spec for the expansion budget on the self-contained entity-table documents (IG/DG scanners)"""
     bad = []
@@ -868,6 +977,42 @@ def _correspond(ctx, xm, xh, root, proof_broken, failed, proof_out, gate_report)
             ctx.known_finding(KF2_ID, KF2_TEXT + " (%d Appendix-C requests deviate, model mirrors each)" % kf2)
         else:
             ctx.violation(KF2_ID, {"request": "uri xmlurl http://a/b/c/d;p?q .", "what": KF2_TEXT})
+    # --- histories on one parser object: the limit is per parse ----------------------------------------------
+    hcases = hist_cases(ctx, lds)
+    hlines = [hist_line(api, ops, docs) for kind, api, ops, docs in hcases]
+    if ctx.replay:
+        rq = (json.load(open(ctx.replay)).get("request") or "").replace("$R", root)
+        keep = [k for k, l in enumerate(hlines) if l == rq]
+        hcases = [hcases[k] for k in keep[:1]]
+        hlines = [hlines[k] for k in keep[:1]]
+    if hlines:
+        rch, himpl, herr = run_bin(xh, ["root " + root] + hlines)
+        rcm, hmodel, _ = run_bin(xm, ["root " + root] + hlines)
+        if rch != 0 or len(himpl) != len(hlines) + 1:
+            k = max(len(himpl) - 1, 0)
+            ctx.violation("harness-crash", {"what": "harness crashed on a history", "rc": rch, "stderr": herr[-1500:],
+                                            "request": hlines[k].replace(root, "$R") if k < len(hlines) else None})
+            return
+        hdiv = hbad = 0
+        nparse = 0
+        for (kind, api, ops, docs), line, i, m in zip(hcases, hlines, himpl[1:], hmodel[1:]):
+            ctx.count()
+            kinds[kind] = kinds.get(kind, 0) + 1
+            nparse += sum(1 for o in ops if o[0] == "P")
+            if "Limit" in i:
+                ctx.distinct(line.replace(root, "$R"))
+            rline = line.replace(root, "$R")
+            bad = hist_spec_check(ops, docs, i)
+            if i != m:
+                hdiv += 1
+                divergences.append((kind, rline, i, m, None, None, None))
+            if bad:
+                hbad += 1
+                spec_fail.append((kind, rline, i, m, bad, i == m))
+        ctx.coverage["history_requests"] = len(hlines)
+        ctx.coverage["history_parses"] = nparse
+        ctx.coverage["input_distribution"] = dict(kinds, fatal_classes=fatals)
+        ctx.note("histories: %d (%d parses), %d divergences, %d spec failures" % (len(hlines), nparse, hdiv, hbad))
     # --- decide -------------------------------------------------------------------------------
     reported = 0
     for kind, rline, i, m, bad, agree in spec_fail:
@@ -899,12 +1044,14 @@ def _correspond(ctx, xm, xh, root, proof_broken, failed, proof_out, gate_report)
         ctx.note("proof obligation failed; a concrete failing input was found by the correspondence")
     ctx.coverage["rule"] = (
         "exhaustive: every combination of {SAX2,DOM} x scanner(4) x validation scheme(3) x doSchema x loadSchema x "
-        "loadExternalDTD x disableDefaultEntityResolution x resolver{none,null,MemBufInputSource} on 12 reference documents "
+        "loadExternalDTD x disableDefaultEntityResolution x resolver{none,null,MemBufInputSource for everything,MemBufInputSource for top-level references only} on 12 reference documents "
         "(external subset, external GE/PE, nested relative references in sub-directories, absolute paths, file: and http: "
         "URLs, schemaLocation/noNamespaceSchemaLocation, include/import loops, references in attribute values/defaults, "
         "missing files, dot segments) + standard-URI-conformant sweep + entity tables needing N expansions with limits "
         "N-1,N,N+1 (flat, chain, tree, attribute values, DTD side) + recursion cycles of every length 1..6 (content, "
-        "attribute value, attribute default, parameter entities, through an external entity) + seeded random "
+        "attribute value, attribute default, parameter entities, through an external entity) + histories of 2-11 "
+        "operations on ONE parser object (SAX2/DOM/SAXParser x 4 scanners: prefix sums crossing the limit, limit lowered / "
+        "raised between parses, manager installed before/after useScanner, scanner switches, manager removed) + seeded random "
         "configurations; a case is non-trivial when anything besides the document is touched/offered or a fatal error "
         "occurs; distinct by request text")
     ctx.coverage["exhaustive"] = True
